@@ -9,7 +9,7 @@ from .common import F, fs, dy
 from . import gen
 
 MF_CLASSES = ['Device', 'CDevice', 'CDevice2', 'IDevice', 'IDevice2', 'GDevice', 'PVDevice', 'ADevice', 'TDevice']
-FLOW_NAMES = ['e', 'h', 'g', 'w']
+FLOW_NAMES = ['e', 'h', 'g', 'w', 'c', 's', 'b']
 
 
 def one_directional(d):
@@ -40,20 +40,44 @@ def gen_wrapped(rng, tier, n, classes=None, p_cons=0.6):
   return d
 
 
-SPECIAL_FLOWS = ['e', 'h[2]', 'g(1)', 'w+x']
-ID_TAILS = ['e', 'h', 'g', '', '', '', '_e', '-h', '(1)', '[2]', '+x', '(a)b']
-FIXED_LABELS = ['e', 'h', 'g', 'zz', '.e', '_e', '.h', '(1)', '[2]', '+x', 'x', '1)', ']', '.', 'e(1)', '2]']
+SPECIAL_FLOWS = ['e', 'h[2]', 'g(1)', 'w+x', 'E', 'cH', 's_e']
+ID_TAILS = ['e', 'h', 'g', '', '', '', '_e', '-h', '(1)', '[2]', '+x', '(a)b', 'E', 'aE', 'H', '_E']
+FIXED_LABELS = ['e', 'h', 'g', 'zz', '.e', '_e', '.h', '(1)', '[2]', '+x', 'x', '1)', ']', '.', 'e(1)', '2]', 'E', 'H', 'aE', 'ae', '.E', '_E']
+RATIOS = [F(-2), F(-1), F(1), F(2), Fraction(5, 2), Fraction(1, 3)]
+RATIO_FORMS = ['list', 'tuple', 'ndarray', 'int-list', 'int-ndarray']
 
 
 def gen_mf(rng, tier, n, ident, kmax=4, classes=None, p_ratio=0.35, special=False):
   d = gen_wrapped(rng, tier, n, classes)
-  k = rng.choice([1, 2, 2, 3, 4][:kmax + 1]) if kmax >= 4 else rng.randint(1, kmax)
+  k = rng.choice([1, 2, 2, 3, 4] + list(range(5, kmax + 1))) if kmax >= 4 else rng.randint(1, kmax)
   names = SPECIAL_FLOWS if (special and rng.random() < 0.25) else FLOW_NAMES
   t = {'k': 'mf', 'id': ident, 'dev': d, 'flows': names[:k], 'ratios': None}
   if k == 2 and rng.random() < p_ratio:
-    t['ratios'] = [fs(dy(rng, 1, 3)), fs(dy(rng, 1, 3))]
-    t['ctype'] = rng.choice(['eq', 'ineq'])
+    set_ratios(rng, t)
   return t
+
+
+def set_ratios(rng, t):
+  """ratios of either sign (the constructor accepts any pair), some not dyadic, in every sequence form the
+  constructor accepts (`_rform`: how the Python side passes them; integer-typed only when both are whole)."""
+  r = [rng.choice(RATIOS) if rng.random() < 0.7 else dy(rng, 1, 3) for _ in range(2)]
+  t['ratios'] = [fs(r[0]), fs(r[1])]
+  t['ctype'] = rng.choice(['eq', 'ineq'])
+  whole = all(x.denominator == 1 for x in r)
+  t['_rform'] = rng.choice(RATIO_FORMS if whole else RATIO_FORMS[:3])
+  return t
+
+
+def py_ratios(t):
+  """the ratios as the Python constructor receives them."""
+  import numpy as np
+  from .common import pf
+  form = t.get('_rform', 'list')
+  if form.startswith('int'):
+    vals = [int(F(x)) for x in t['ratios']]
+    return np.array(vals, dtype=np.int64) if form == 'int-ndarray' else vals
+  vals = [pf(x) for x in t['ratios']]
+  return tuple(vals) if form == 'tuple' else np.array(vals) if form == 'ndarray' else vals
 
 
 def label_pool(rng, ids):
@@ -64,7 +88,8 @@ def label_pool(rng, ids):
   for q in rng.sample(ids, min(len(ids), 4)):
     parts = q.split('.')
     pool += [parts[-1], '.' + parts[-1], '.'.join(parts[-2:]), q, q[1:]]
-    pool += [q[-j:] for j in rng.sample(range(1, len(q) + 1), min(len(q), 3))]
+    tails = [q[-j:] for j in rng.sample(range(1, len(q) + 1), min(len(q), 3))]
+    pool += tails + [x.swapcase() for x in tails[:2]] + [parts[-1].upper(), parts[-1].lower()]
   return sorted(set(x for x in pool if x))
 
 
@@ -95,7 +120,7 @@ def gen_set_tree(rng, tier='quick', n=None, depth=None, dup=False):
     d = gen.gen_leaf(rng, tier, [cls], n=n)
     if cls == 'ADevice' and rng.random() < 0.5:
       d['ucons'] = gen.gen_ucons(rng, n, [F(x) for x in d['lb']], [F(x) for x in d['hb']])
-    return {'k': 'leaf', 'id': ident or fresh(rng.choice(['a', 'b', 'e', 'h', 'g', 'x']), ID_TAILS), 'dev': d}
+    return {'k': 'leaf', 'id': ident or fresh(rng.choice(['a', 'b', 'e', 'h', 'g', 'x', 'A', 'E']), ID_TAILS), 'dev': d}
   def node(dep, root=False):
     kids = []
     for _ in range(rng.randint(1 if not root else 2, 4 if root else 3)):
@@ -103,7 +128,7 @@ def gen_set_tree(rng, tier='quick', n=None, depth=None, dup=False):
       if dep > 1 and r < 0.35:
         kids.append(node(dep - 1))
       elif r < 0.55:
-        kids.append(gen_mf(rng, tier, n, fresh(rng.choice(['m', 'm', 'x'])), kmax=3, special=True))
+        kids.append(gen_mf(rng, tier, n, fresh(rng.choice(['m', 'm', 'x'])), kmax=rng.choice([3, 3, 3, 5]), special=True))
       else:
         kids.append(leaf())
       # a sibling that differs from a nested row only in the separator: `x3_e` next to `x3.e`
@@ -111,7 +136,7 @@ def gen_set_tree(rng, tier='quick', n=None, depth=None, dup=False):
       if last['k'] != 'leaf' and rng.random() < 0.35:
         sub = rng.choice(fqids(last)).split('.')
         kids.append(leaf(sub[0] + rng.choice(['_', '-', '']) + sub[-1]))
-    t = {'k': 'node', 'id': 'root' if root else fresh(rng.choice(['s', 's', 'e', 'h'])), 'sb': None, 'ch': kids, 'sub': False,
+    t = {'k': 'node', 'id': 'root' if root else fresh(rng.choice(['s', 's', 'e', 'h', 'S', 'E'])), 'sb': None, 'ch': kids, 'sub': False,
          '_sbmode': rng.choice([None, 'ineq', 'ineq', 'eq', 'mixed', 'mixed', 'mixed'])}
     force = False
     same = [k for k in ('leaf', 'mf') if sum(c['k'] == k for c in kids) >= 2]
@@ -135,6 +160,8 @@ def gen_set_tree(rng, tier='quick', n=None, depth=None, dup=False):
       t['ctype'] = rng.choice(['eq', 'eq', 'ineq'])
       t['sign'] = rng.choice(['1', '1', '-1', '-1', '2', '-1/2'])
       t['rem'] = rng.random() < 0.45
+      if not force and rng.random() < 0.12:        # no label at all: everything is "the rest"
+        t['labels'] = []; t['rem'] = rng.random() < 0.85
     return t
   return node(depth, root=True), n
 
@@ -291,7 +318,8 @@ def craft(rng, t, n):
     x = wrapped_flow(rng, s['dev'], n)
     if s.get('ratios'):
       r0, r1 = F(s['ratios'][0]), F(s['ratios'][1])
-      v = [Fraction(round(xi/(r0 + r1)*8), 8) for xi in x]
+      den = (r0 + r1) if r0 + r1 != 0 else F(1)
+      v = [Fraction(round(xi/den*8), 8) for xi in x]
       S[off] = [vi*r1 for vi in v]; S[off + 1] = [vi*r0 for vi in v]
       if s.get('ctype') == 'ineq' and rng.random() < 0.5:
         S[off] = [a + abs(dy(rng, 0, 1)) for a in S[off]]
